@@ -102,6 +102,9 @@ func c02Profiles(tier string) []Profile {
 	framed := &SeqProfile{Name: "durable-framed", Keys: keys, Depth: d - 1, Init: initX, Mon: harness.Monitors{Durable: true}, CBMask: harness.CBFramed,
 		Letters: storeLetters(true, true)}
 	conc = append(conc, framed.Profile(fmt.Sprintf("the durable profile (histories of length <= %d) with a BeforeItemWrite / AfterItemRead pair installed that stores every value with a two-byte trailer (length, checksum) and verifies and strips it on read: the stored form differs in length from the in-memory form; every state a successful Flush reported must come back through the pair after re-opening a copy of the file", d-1)))
+	vframed := &SeqProfile{Name: "durable-valframed", Keys: keys, Depth: d - 1, Init: initX, Mon: harness.Monitors{Durable: true}, CBMask: harness.CBValFramed,
+		Letters: storeLetters(true, true)}
+	conc = append(conc, vframed.Profile(fmt.Sprintf("the durable profile (histories of length <= %d) with the ItemValLength / ItemValWrite / ItemValRead triple installed: every value is stored with a two-byte trailer written by a separate file call (the stored length is what ItemValLength answers, not len(Val)); byte totals must count the stored lengths everywhere, and every state a successful Flush reported must come back through ItemValRead after re-opening a copy of the file", d-1)))
 	return append(conc, p.Profile(fmt.Sprintf("every history of length <= %d over Set/Delete on x (2 keys x 2 priorities), Set/Delete on y, SetCollection(y) (new and existing), RemoveCollection(y), Evict, Flush, Reopen (close, open the same file, continue); at the end of every history a byte copy of the file is opened in a fresh Store and must equal the model's newest durable state (top of the flush stack, empty if none)", d)))
 }
 
